@@ -481,7 +481,31 @@ class Run:
             self.trusted_base.append(
                 f"{t}: " + ("closed under the global context" if not axs else "axioms " + ", ".join(axs))
             )
+        if self.tier == "thorough" and ok and not os.environ.get("VERIF_NO_COQCHK"):
+            self._coqchk(area, props_file)
         return ok and not self.broken_obligations
+
+    def _coqchk(self, area: str, props_file: str) -> None:
+        """Thorough tier: re-check the compiled Props file and everything it depends on with the
+        independent checker and record the axioms it reports (it lists those of every loaded library)."""
+        logical = None
+        for line in (area_dir(area) / "_CoqProject").read_text().splitlines():
+            m = re.match(r"\s*-[QR]\s+\.\s+(\w+)", line)
+            if m:
+                logical = m.group(1)
+        if logical is None:
+            return
+        mod = f"{logical}.{props_file[:-2].replace('/', '.')}"
+        cmd = ["timeout", "1500", "coqchk", "-silent", "-o", *_coqproject_args(area), mod]
+        t0 = time.time()
+        p = subprocess.run(cmd, cwd=area_dir(area), capture_output=True, text=True)
+        out = p.stdout + p.stderr
+        self.checker_cmds.append("coqchk -silent -o " + " ".join(_coqproject_args(area)) + " " + mod)
+        summary = out[out.find("CONTEXT SUMMARY"):] if "CONTEXT SUMMARY" in out else out[-600:]
+        self.coverage["coqchk"] = {"ok": p.returncode == 0, "wall_s": round(time.time() - t0, 1), "summary": " ".join(summary.split())[:1500]}
+        if p.returncode != 0:
+            self.broken_obligations.append(f"coqchk rejected {mod}: {out[-300:]}")
+            self.note(f"coqchk FAILED for {mod}")
 
     # -- violations --------------------------------------------------------------------
     def violation(self, what: str, replay: dict, *, no_failing_input: bool = False) -> None:
